@@ -64,6 +64,8 @@ def build_case(cs, profile):
         spec = sp.make_huge_id_hr_spec(rng)       # hospital ids 258..300
     elif fam < hr_ + 0.038:
         spec = sp.make_long_list_spec(rng)        # ranks 10..13
+    elif fam < hr_ + 0.046:
+        spec = sp.make_zero_student_spec(rng)     # the header announces 0 students
     if profile.get('size_cost_cross'):
         spec = sp.make_size_cost_cross_spec(rng)
     if profile.get('big_quota'):
@@ -110,7 +112,7 @@ def lp_case(cs, ctx, profile, probe_rate=0.0, probe_cap=64, _confirm=False):
         ctx.cnt('shipped_evaluation_instances')
     if spec['ns'] >= 10:
         ctx.cnt('instances_with_10_or_more_students')
-    if spec.get('shape') in ('huge_ids', 'huge_ids_hr', 'long_list'):
+    if spec.get('shape') in ('huge_ids', 'huge_ids_hr', 'long_list', 'zero_students'):
         ctx.cov('family_' + spec['shape'])
     decoy_argv = None
     decoy_text = None
